@@ -42,7 +42,7 @@ PALETTE = {
 
 def scenarios(tier: str) -> List[Dict[str, Any]]:
     out: List[Dict[str, Any]] = []
-    seqs = ["PE", "CKM"] if tier == "quick" else ["PE", "CKM", "SUNDAY"[:5].replace("U", "U"), "WHKRF"]
+    seqs = ["PEP", "KCMK"] if tier == "quick" else ["PEP", "KCMK", "SUNDS", "WHKRFW"]
     slots = ["labile", "unknown", "nterm", "cterm", "res0", "resL", "interval", "staticAA", "staticN", "staticC", "static2"]
     kinds = list(PALETTE)
     charges = [None, -3, -1, 0, 1, 2, 4]
@@ -462,7 +462,7 @@ def run(tier: str, seed: int, only=None) -> Report:
                     "chem_constants' own source on those symbols, so both calculators become polynomials in the same variables and z3 "
                     "decides whether they can differ by more than the tolerance for any atomic masses and any numeric modification value.",
         functions=FUNCS,
-        bounds="sequences PE, CKM (quick) + 2 longer (thorough); 11 modification slots x 14 spellings (numeric, Formula incl. isotopes, "
+        bounds="sequences PEP, KCMK (quick; repeated letters so static rules count >1) + 2 longer (thorough); 11 modification slots x 14 spellings (numeric, Formula incl. isotopes, "
                "Unimod name/accession/prefix, Glycan, '|' alternatives, '#' tags, Obs, signed and prefixed deltas) singly, in pairs and all "
                "at once; multipliers 1..3; all 18 ion types; charge None,-3..4 in argument or annotation; isotope 0..3; nine adduct "
                "lists; labels 13C,15N,18O,D,T and a pair; use_isotope_on_mods; mono/avg",
